@@ -1,10 +1,11 @@
 /- C20 helper lemmas: the head of an x86 instruction line (option words + mnemonic) read back. -/
 import AsmjitVerif.Lemmas.FormatNames
+import AsmjitVerif.Lemmas.FormatMnemonics
 
 namespace AsmjitVerif.Lemmas.FormatLine
 open AsmjitVerif.Format AsmjitVerif.FormatText AsmjitVerif.Lemmas.FormatLex AsmjitVerif.Lemmas.FormatNum
 open AsmjitVerif.Lemmas.FormatX86Mem AsmjitVerif.Lemmas.FormatLabels AsmjitVerif.Lemmas.FormatNames
-open AsmjitVerif.Gen.FormatTabs
+open AsmjitVerif.Gen.FormatTabs AsmjitVerif.Lemmas.FormatMn
 
 set_option maxRecDepth 1000000
 
@@ -48,10 +49,6 @@ theorem readHeadWords_spec : ∀ (ws : List Str) (fuel : Nat) (name rest : Str),
 /-! ### the words `format_instruction` prints are head words; mnemonics are not -/
 
 theorem fixed_words_ok : ∀ w ∈ x86PrefixWordsL, isHeadWord w = true ∧ ∀ c ∈ w, notSpace c = true := by decide
-
-theorem mnemonics_ok :
-    (∀ n ∈ x86InstNames.toList, isHeadWord n.toList = false ∧ ∀ c ∈ n.toList, notSpace c = true) ∧
-    (∀ n ∈ x86AliasNames.toList, isHeadWord n.toList = false ∧ ∀ c ∈ n.toList, notSpace c = true) := by decide +kernel
 
 theorem mem_ite_single {α : Type} (c : Prop) [Decidable c] (a w : α) (h : w ∈ (if c then [a] else [])) : w = a := by
   split at h <;> simp_all
@@ -101,7 +98,7 @@ theorem words_length_le : ∀ ws : List Str, ws.length ≤ (ws.flatMap (fun w =>
 theorem instName_ok (flags id : Nat) (hid : id < x86InstCount) :
     isHeadWord (x86InstName flags id) = false ∧ ∀ c ∈ x86InstName flags id, notSpace c = true := by
   unfold x86InstCount at hid
-  have hsz : x86AliasNames.size = x86InstNames.size := by decide +kernel
+  have hsz := alias_size
   have hlt : id < x86AliasNames.size := by omega
   have k1 := mnemonics_ok.1 (x86InstNames[id]'hid) (by simp)
   have k2 := mnemonics_ok.2 (x86AliasNames[id]'hlt) (by simp)
